@@ -143,6 +143,21 @@ def gen_cases(tier, seed):
                           'transfers': [{'kind': 'download', 'dst': 'path', 'size': rng.choice([2 * C + 1, 4 * C, 5 * C + 3])}],
                           'get_read_caps': rng.choice(caps_menu), 'plan': {},
                           'yield': {'p': 0.0, 'window': {'file': '__init__.py', 'lineno': line[1], 'nth': nth, 'name': f'__init__.py:{line[1]}:{line[2]}', 'wait': 0.2}}})
+    # one ProcessPoolDownloader used from several threads: 2-3 download_file calls at once, one of the callers held at each
+    # statement of the start-up / registration code until the others have run as far as they can
+    import s3transfer.processpool  # noqa: F401  (all_lines lists the code of loaded modules)
+
+    plines = [l for l in yieldinj.all_lines(['processpool.py'])
+              if l[2].startswith(('TransferMonitor.notify_new_transfer', 'ProcessPoolDownloader.download_file', 'ProcessPoolDownloader._start',
+                                  'ProcessPoolDownloader._get_transfer_future', 'BaseManager')) ]
+    for line in plines:
+        for rep in range((6 if 'TransferMonitor' in line[2] else 2) if quick else 12):
+            n = rng.choice([2, 3])
+            cases.append({'front_end': 'procpool_full', 'concurrent_submit': True, 'exit': rng.choice(['shutdown', 'with']), 'seed': rng.randrange(1 << 30),
+                          'config': dict(multipart_threshold=16, multipart_chunksize=8, workers=rng.choice([1, 2, 3]), io_chunksize=4),
+                          'transfers': [{'kind': 'download', 'dst': 'path', 'size': rng.choice([5, 20, 30])} for _ in range(n)],
+                          'yield': {'p': 0.0, 'window': {'file': 'processpool.py', 'lineno': line[1], 'nth': rng.choice([0, 0, 1]),
+                                                         'name': f'processpool.py:{line[1]}:{line[2]}', 'wait': 0.2}}})
     # several downloads one after the other on ONE manager (each finished before the next is submitted), some with stream retries
     for i in range(30 if quick else 300):
         T, C = rng.choice([(8, 8), (16, 8), (8, 4)])
